@@ -365,7 +365,8 @@ reg(Check("C14", "model_checking",
           "settled: every sub/leave/del answered, Session.subs <-> Topic.sessions symmetric, terminated sessions detached, online counters, "
           "request slots released, no deadlock / panic / livelock, no unprotected access; plus deleted topics stay deleted on every transition of the acl and p2p searches; acl-fault: after a request which failed "
           "on a store error a disconnecting session still ends up detached; at-end: one of 7 requests handled completely at every store-call boundary / atomic operation "
-          "of a group's idle unload, of its deletion by the owner and of the deletion of a member's account",
+          "of a group's idle unload, of its deletion by the owner and of the deletion of a member's account; at-load: the same during the load of a group, "
+          "incl. the disconnect of the very connection whose {sub} triggered the load",
           ["deviation-bounded; map iteration order fixed (sorted)", "protection of shared data is decided as lock discipline: every executed statement mentioning Session.subs / SessionStore.sessCache,lru "
            "must run with the object's lock held by the executing goroutine (exclusively for writes), Session.terminating / Topic.status only "
            "through sync/atomic; goroutine-owned topic tables and a free-running race detector pass are not covered; see DESIGN.md 9.2"],
@@ -375,7 +376,8 @@ reg(Check("C14", "model_checking",
           parts=[Part("races", SRV, "^TestVerifC14Races$", instr=True, shards=(16, 16), deadline=(300, 3000)),
                  Part("acl", SRV, "^TestVerifC14Acl$", instr=True, gomaxprocs=16, deadline=(300, 2400)),
                  Part("acl-fault", SRV, "^TestVerifC14AclFault$", instr=True, gomaxprocs=16, deadline=(300, 2400)),
-                 Part("at-end", SRV, "^TestVerifC14AtEnd$", instr=True, shards=(16, 16), deadline=(300, 1200))]))
+                 Part("at-end", SRV, "^TestVerifC14AtEnd$", instr=True, shards=(16, 16), deadline=(300, 1200)),
+                 Part("at-load", SRV, "^TestVerifC14AtLoad$", instr=True, shards=(16, 16), deadline=(300, 1200))]))
 
 reg(Check("C10", "model_checking",
           "pres: BFS to depth 4 (quick) / 6 (thorough) over 20 operations (two users a, b with a p2p topic and a shared group, a stranger c; a has "
